@@ -24,6 +24,7 @@ type Sort struct {
 	K         Kind
 	W         int
 	Idx, Elem *Sort
+	ElemLo, ElemHi *big.Int // Int-element arrays: range of every element (Go element type)
 }
 
 var sortTab = map[string]*Sort{}
@@ -33,7 +34,7 @@ func mkSort(k Kind, w int, idx, elem *Sort) *Sort {
 	if s, ok := sortTab[key]; ok {
 		return s
 	}
-	s := &Sort{k, w, idx, elem}
+	s := &Sort{K: k, W: w, Idx: idx, Elem: elem}
 	sortTab[key] = s
 	return s
 }
@@ -43,6 +44,17 @@ var IntSort = mkSort(KInt, 0, nil, nil)
 
 func BVSort(w int) *Sort          { return mkSort(KBV, w, nil, nil) }
 func ArrSort(idx, el *Sort) *Sort { return mkSort(KArr, 0, idx, el) }
+
+// ArrSortR is an array sort whose (Int) elements are known to lie in [lo,hi].
+func ArrSortR(idx, el *Sort, lo, hi *big.Int) *Sort {
+	key := fmt.Sprintf("R/%p/%p/%s/%s", idx, el, lo, hi)
+	if s, ok := sortTab[key]; ok {
+		return s
+	}
+	s := &Sort{K: KArr, Idx: idx, Elem: el, ElemLo: lo, ElemHi: hi}
+	sortTab[key] = s
+	return s
+}
 
 func (s *Sort) String() string {
 	switch s.K {
@@ -748,7 +760,11 @@ func Select(arr, idx *Term) *Term {
 		}
 		break
 	}
-	return mk("select", arr.Sort.Elem, cur, idx)
+	r := mk("select", arr.Sort.Elem, cur, idx)
+	if arr.Sort.ElemLo != nil {
+		SetRange(r, arr.Sort.ElemLo, arr.Sort.ElemHi)
+	}
+	return r
 }
 
 func Store(arr, idx, v *Term) *Term {
